@@ -95,6 +95,14 @@ def run(tier):
                 jobs.append(gen.enc("aztec", list(text[:n]), (pct, 0), proj="outcome", hist=len(jobs)))
                 jobs.append(gen.enc("aztec", list(text[:n]), (pct, req), proj="outcome", hist=jobs[-1]["hist"]))
     chk.cov["aztec_exact_fit_sweep"] = dict(encodes_explored_by_generator=explored, smaller_request_accepted=suspicious, percentages=pcts)
+    for d in encconf.aztec_selection(chk, quick):          # size choices where the real encoder left AztecSel!Select: as pairs (automatic, request)
+        jobs.append(gen.enc("aztec", d["content"], (d["p"][0], 0), proj="outcome", hist=len(jobs)))
+        h = jobs[-1]["hist"]
+        if d["p"][1] != 0:
+            jobs.append(gen.enc("aztec", d["content"], tuple(d["p"]), proj="outcome", hist=h))
+        else:
+            for (sz, req) in C03.AZ_SIZES:
+                jobs.append(gen.enc("aztec", d["content"], (d["p"][0], req), proj="outcome", hist=h))
     # shape-chooser conformance (tools/encconf.py): calcDimensions for every codeword count x level against PDFDims; shapes that break the
     # rules of the property, and a sample of shapes that merely differ from the model's, are produced through the public API and measured
     wrong, drift = encconf.dims_conformance(chk)
